@@ -36,9 +36,10 @@ def unitDays? (u : TUnit) : Option Rat := Gen.timeUnits.lookup u.name
 
 def unitDays (u : TUnit) : Rat := (unitDays? u).getD 1
 
-/-- the Python exception class raised (ValueError, sc.KeyNotFoundError, TypeError, anything else);
+/-- the Python exception class raised (ValueError, sc.KeyNotFoundError, TypeError, anything else); `hang` = the
+    constructor never returns;
     `unsupported` = outside the modelled domain (the harness never sends such a case to the code) -/
-inductive Err | value | key | type | other | unsupported
+inductive Err | value | key | type | other | hang | unsupported
   deriving DecidableEq, Repr
 
 /-- the error of a result, if any (used to state rejections) -/
@@ -48,10 +49,15 @@ def err? {α} (r : Except Err α) : Option Err := match r with | .error e => som
 structure Num where
   q : Rat
   f : Rat
+  /-- the value is a Python `int` (NumPy arrays built from it are integer arrays) -/
+  int : Bool := false
   deriving DecidableEq, Repr
 
-def Num.ofRat (q : Rat) : Num := ⟨q, F64.rd q⟩
-def Num.ofNat (n : Nat) : Num := ⟨n, n⟩
+/-- a Python float written as the decimal `q` -/
+def Num.ofRat (q : Rat) : Num := ⟨q, F64.rd q, false⟩
+/-- a Python int -/
+def Num.ofInt (n : Int) : Num := ⟨n, n, true⟩
+def Num.ofNat (n : Nat) : Num := ⟨n, n, true⟩
 
 inductive TVal
   | num (x : Num)
@@ -97,7 +103,7 @@ def gridCount (v : Variant) (a b dt : Num) : Except Err Nat :=
 
 def dateAdd (start : TVal) (dur : Num) (u : TUnit) : Except Err TVal :=
   match start with
-  | .num s => .ok (.num ⟨s.q + dur.q, F64.add s.f dur.f⟩)
+  | .num s => .ok (.num ⟨s.q + dur.q, F64.add s.f dur.f, s.int && dur.int⟩)
   | .date d =>
       if Gen.timeUnitNames.contains u.name then
         let ndays := F64.rhe (F64.mul (F64.rd (unitDays u)) dur.f)
@@ -114,7 +120,22 @@ def dateDiff (start stop : TVal) (u : TUnit) : Except Err Rat :=
       else match unitDays? u with
         | some w => .ok ((b.diffDays a : Int) / w)
         | none => .error .value                   -- time_ratio: only one is unitless
-  | _, _ => .error .unsupported
+  | a, b =>
+      -- one number, one date: `sc.datetoyear(number)` has no `.year` (AttributeError) for years; otherwise
+      -- `ss.date(number)` reads the number as a year
+      if u = .year then .error .other
+      else
+        let toDate : TVal → Except Err Date := fun x => match x with
+          | .date d => .ok d
+          | .num y => if y.q < 1 then .error .value else .ok (yearToDate .asis y.q)
+        match toDate a, toDate b with
+        | .ok da, .ok db =>
+            if u = .day then .ok (db.diffDays da : Int)
+            else match unitDays? u with
+              | some w => .ok ((db.diffDays da : Int) / w)
+              | none => .error .value
+        | .error e, _ => .error e
+        | _, .error e => .error e
 
 structure SimPars where
   unit : String
@@ -206,7 +227,13 @@ def dayDelta (u : TUnit) (dt : Num) : Int :=
 
 /-- dates of a calendar timeline (unit day/week/month) -/
 def calendarDates (v : Variant) (u : TUnit) (start stop : Date) (dt : Num) : Except Err (List Date) :=
-  if dt.q ≤ 0 then .error .unsupported            -- sc.daterange does not terminate
+  if dt.q ≤ 0 ∧ v = .spec then .error .value      -- a step that does not advance must be rejected
+  else if dt.q ≤ 0 ∧ dt.q.den = 1 then
+    -- today's code hands the step to `sc.daterange` unchecked
+    if toOrdinal stop < toOrdinal start then .ok []          -- the loop body never runs
+    else if dt.q = 0 then .error .hang                       -- `curr_date += 0 days` for ever
+    else if u = .month then .error .value                    -- walks back to year 0: ValueError
+    else .error .other                                       -- walks back below date.min: OverflowError
   else if dt.q.den = 1 then
     .ok (dateRange (stepDate u dt.q.num.toNat) stop (rangeFuel start stop) start)
   else
@@ -225,7 +252,7 @@ def calendarDates (v : Variant) (u : TUnit) (start stop : Date) (dt : Num) : Exc
 /-- float value of `sc.datetoyear`: `year + days/yearlen` (two correctly rounded operations) -/
 def dateToYearNum (d : Date) : Num :=
   ⟨dateToYear d,
-   F64.add (d.y : Rat) (F64.div ((toOrdinal d - toOrdinal ⟨d.y, 1, 1⟩ : Nat) : Rat) (yearLen d.y : Rat))⟩
+   F64.add (d.y : Rat) (F64.div ((toOrdinal d - toOrdinal ⟨d.y, 1, 1⟩ : Nat) : Rat) (yearLen d.y : Rat)), false⟩
 
 /-- `Time.init` without the `sim` argument (all four parameters present, unit validated) -/
 def initTime (v : Variant) (s : Spec) : Except Err Timeline := do
@@ -265,6 +292,7 @@ def initTime (v : Variant) (s : Spec) : Except Err Timeline := do
 def simTimeline (v : Variant) (p : SimPars) : Except Err Timeline := do
   let s ← validateTime p
   let t ← initTime v s
+  if t.npts = 0 then throw Err.other            -- nothing to integrate: `sim.init()` fails later (AttributeError)
   pure { t with abstvec := some t.tvec }
 
 /-! ### Modules -/
@@ -283,14 +311,17 @@ def unitRatio (u1 u2 : TUnit) : Except Err Rat :=
     | _, _ => .error .value
 
 /-- `Time.make_abstvec`: the module's points on the sim's elapsed-time axis, in sim units -/
-def makeAbstvec (m sim : Timeline) : Except Err (List Rat) := do
+def makeAbstvec (v : Variant) (m sim : Timeline) : Except Err (List Rat) := do
   let mu := decide (m.unit = .unitless)
   let su := decide (sim.unit = .unitless)
   if mu ≠ su then throw Err.value
   if (mu && su) || (m.start.isNum && sim.start.isNum) then
     let ratio ← unitRatio m.unit sim.unit
     match m.start, sim.start with
-    | .num a, .num b => pure (m.tvec.map (fun t => round6 (t * ratio + (a.q - b.q))))
+    | .num a, .num b =>
+        -- today's code scales / shifts `tvec` in place: an integer array (int dt) cannot take a float factor or offset
+        if v = .asis ∧ m.dt.int = true ∧ (ratio ≠ 1 ∨ (a.q - b.q ≠ 0 ∧ (a.int && b.int) = false)) then throw Err.type
+        pure (m.tvec.map (fun t => round6 (t * ratio + (a.q - b.q))))
     | _, _ => throw Err.type                 -- date - number
   else if sim.unit = .year then
     let y0 := sim.yearvec.headD 0
@@ -311,12 +342,61 @@ def moduleTimeline (v : Variant) (sim : Timeline) (p : ModPars) : Except Err Tim
   let same := decide (u = sim.unit)
   let d0 := sim.datevec.headD default
   let dN := sim.datevec.getLastD default
-  let dt := p.dt.getD (if same then sim.dt else Num.ofNat 1)
+  let dt := p.dt.getD (if same then sim.dt else Num.ofRat 1)
   let start := p.start.getD (if same then sim.start else .date d0)
   let stop := p.stop.getD (if same then sim.stop else .date dN)
   let t ← initTime v ⟨u, start, stop, dt⟩
-  let a ← makeAbstvec t sim
+  let a ← makeAbstvec v t sim
   pure { t with abstvec := some a }
+
+/-! ### `Time.update` and `Time.now` -/
+
+/-- the four time arguments as held by an uninitialised `Time` (or given as `pars` / `kwargs` / a parent) -/
+structure TPars where
+  start : Option TVal := none
+  stop : Option TVal := none
+  dt : Option Num := none
+  unit : Option String := none
+  deriving DecidableEq, Repr
+
+/-- the `force` argument: `False` (only fill missing values), `None` (keep current over parent), `True` (parent over current) -/
+inductive Force | onlyMissing | current | parent
+  deriving DecidableEq, Repr
+
+/-- `sc.ifelse`: the first value that is not `None` -/
+def ifelse {α} : List (Option α) → Option α
+  | [] => none
+  | some a :: _ => some a
+  | none :: rest => ifelse rest
+
+def pick {α} (f : Force) (cur kw par parent : Option α) : Option α :=
+  match f with
+  | .onlyMissing => ifelse [cur, kw, par, parent]
+  | .current => ifelse [kw, par, cur, parent]
+  | .parent => ifelse [kw, par, parent, cur]
+
+/-- `Time.update(pars, parent, force, **kwargs)` on the parameters.  `parent = none`: no parent object; a parent that
+    is a `Time` with another unit offers `dt = 1.0` instead of its own dt — compared with the unit the object holds
+    BEFORE this update, because `dt` is reconciled before `unit` (order of `time_args`). -/
+def update (f : Force) (self kw pars : TPars) (parent : Option TPars) : TPars :=
+  let pv := parent.getD {}
+  let parentDt := match parent with
+    | some p => if p.unit ≠ self.unit then some (Num.ofRat 1) else p.dt
+    | none => none
+  { start := pick f self.start kw.start pars.start pv.start
+    stop := pick f self.stop kw.stop pars.stop pv.stop
+    dt := pick f self.dt kw.dt pars.dt parentDt
+    unit := pick f self.unit kw.unit pars.unit pv.unit }
+
+/-- `Time.ready`: all four arguments present -/
+def TPars.ready (p : TPars) : Bool := p.start.isSome && p.stop.isSome && p.dt.isSome && p.unit.isSome
+
+/-- `Time.now`: the index into whichever representation is asked for — the current step, clamped to the last point -/
+def nowIndex (npts ti : Nat) : Nat := min ti (npts - 1)
+
+def Timeline.nowYear (t : Timeline) (ti : Nat) : Option Rat := t.yearvec[nowIndex t.npts ti]?
+def Timeline.nowDate (t : Timeline) (ti : Nat) : Option Date := t.datevec[nowIndex t.npts ti]?
+def Timeline.nowTvec (t : Timeline) (ti : Nat) : Option Rat := t.tvec[nowIndex t.npts ti]?
 
 /-- every `Result` of a module is created with `shape = module.t.npts` -/
 def resultLen (t : Timeline) : Nat := t.npts
